@@ -14,7 +14,8 @@ RULE = ('deviation-bounded product space (<=3 of 12 slots, several modifications
         'K, PEK (quick) and MKPEMK (thorough); per state: 5 reconstruction clauses, all orders of add_* calls over the set '
         'slots (<=6 orders), deep-mutation independence of copy() in both directions, and every single-field perturbation '
         '(value, multiplier, drop, duplicate, move, interval bound, flag, charge, adducts, residue, label, rule target) '
-        'for the equality clause; non-trivial = at least one slot set')
+        'for the equality clause; value layer: every ordered pair of 25 modification texts x 7 slot kinds x multipliers; '
+        'non-trivial = at least one slot set')
 ASSUMPTIONS = ['perturbations are generated on the abstract peptide and rendered by the independent renderer; each one '
                'changes what the notation denotes', 'order insensitivity is required inside one slot only']
 
@@ -70,10 +71,33 @@ def shards(tier):
         for sh in space.dev_shards(axes_for(len(seq)), 3):
             sh['seq'] = seq
             out.append(sh)
+    out += [{'kind': 'values', 'first': i} for i in range(len(VALUE_TEXTS))]
     return out
 
 
+# equality is sensitive to the modification value: every ordered pair of these texts, in every slot kind
+VALUE_TEXTS = ['-3', '-2', '-1', '0', '1', '2', '-1.0', '-2.0', '1.0', '0.5', '-0.5', '1E3', '1000', '15.995', '15.9949',
+               '-15.995', 'Oxidation', 'Acetyl', 'oxidation', 'U:35', 'Formula:C2', 'Formula:C3', '2305843009213693951',
+               '2305843009213693952', '-2305843009213693951']
+VALUE_SLOTS = ['res', 'nterm', 'cterm', 'labile', 'unknown', 'iv', 'static']
+
+
+def _value_form(slot, text, mult):
+    ml = [[text, mult]]
+    if slot == 'res':
+        return {'seq': 'PEK', 'res': [[1, ml]]}
+    if slot == 'iv':
+        return {'seq': 'PEK', 'iv': [[0, 2, False, ml]]}
+    if slot == 'static':
+        return {'seq': 'PEK', 'static': [{'mods': ml, 'targets': ['K']}]}
+    return {'seq': 'PEK', slot: ml}
+
+
 def gen(shard, tier):
+    if shard.get('kind') == 'values':
+        for j in range(len(VALUE_TEXTS)):
+            yield {'kind': 'values', 'i': shard['first'], 'j': j}, 2, True
+        return
     seq = shard['seq']
     n = len(seq)
     for slots in space.dev_states(shard, lambda a, lv: values_at(a, lv, n)):
@@ -231,6 +255,34 @@ def deep_mutate(a):
 
 def check(case, ctx):
     p = lib.pt()
+    if case.get('kind') == 'values':
+        t1, t2 = VALUE_TEXTS[case['i']], VALUE_TEXTS[case['j']]
+        v1, v2 = pmodel.numval(t1), pmodel.numval(t2)
+        same = (v1 == v2) if isinstance(v1, str) == isinstance(v2, str) else False
+        for slot in VALUE_SLOTS:
+            if slot == 'static':
+                same_here = t1 == t2      # a rule is kept as written
+            else:
+                same_here = same
+            for m1, m2 in ((1, 1), (2, 2), (1, 2)):
+                s1 = pmodel.render(_value_form(slot, t1, m1))
+                s2 = pmodel.render(_value_form(slot, t2, m2))
+                a1, a2 = lib.call(p.parse, s1), lib.call(p.parse, s2)
+                ctx.evals += 2
+                if a1[0] != 'ok' or a2[0] != 'ok':
+                    ctx.fail('parse-raises', 'annotation', [a1[1], a2[1]], text=[s1, s2])
+                    continue
+                want = same_here and m1 == m2
+                for x, y in ((a1[1], a2[1]), (a2[1], a1[1])):
+                    if (x == y) is not want or (x != y) is want:
+                        ctx.fail('eq-value-sensitivity', want, x == y, text=[s1, s2], slot=slot)
+                        break
+            if slot != 'static':
+                x, y = p.Mod(v1, 1), p.Mod(v2, 1)
+                if (x == y) is not same or (same and hash(x) != hash(y)):
+                    ctx.fail('Mod-eq-value-sensitivity', same, x == y, values=[t1, t2])
+        ctx.outcome = [t1, t2, same]
+        return
     P = c01.build(case['seq'], case['slots'])
     s = pmodel.render(P)
     st, a = lib.call(p.parse, s)
@@ -257,12 +309,17 @@ def check(case, ctx):
             st4, ba = lib.call(p.parse, back)
             if st4 != 'ok' or pmodel.diff(exp, pmodel.observed(ba)) or back != canon:
                 ctx.fail('add_mods(strip_mods,get_mods)', canon, back, text=s)
+            elif back != s:
+                ctx.fail('add_mods-reproduces-original-string', s, back, text=s)
         for append, plus in ((False, False), (True, True)):
             st6, back2 = lib.call(p.add_mods, stripped, _copy.deepcopy(md), append, plus)
             ctx.evals += 1
             want = a.serialize(include_plus=plus)
             if st6 != 'ok' or back2 != want:
                 ctx.fail('add_mods-options', want, back2, text=s, append=append, include_plus=plus)
+            elif back2 != pmodel.render(P, plus) and not (plus and P.get('static')):   # a rule is kept as written
+                # the original string in the spelling with explicit plus signs (independent renderer)
+                ctx.fail('add_mods-reproduces-original-string', pmodel.render(P, plus), back2, text=s, include_plus=plus)
         st5, pm = lib.call(p.pop_mods, s)
         ctx.evals += 1
         if st5 != 'ok' or pm[0] != P['seq'] or lib.dump(pm[1]) != lib.dump(md):
